@@ -48,7 +48,10 @@ ClassesOf(f) ==
     [] f = "from"        -> {"present", "absent", "self"}
     [] f = "form"        -> {"spki_ed25519", "spki_rsa", "spki_ecdsa", "pem", "pkcs8_ed25519", "pkcs8_rsa", "pkcs8_ecdsa",
                              "raw_ed25519", "raw_ecdsa", "keyid_str", "sig_hex", "pubkey_json"}
-    [] f = "damage"      -> {"none", "empty", "truncate1", "truncate_half", "wrong_oid", "garbage", "trailing", "bitflip", "text", "huge"}
+    [] f = "damage"      -> {"none", "empty", "truncate1", "truncate_half", "wrong_oid", "garbage", "trailing", "bitflip", "text", "huge",
+                             \* structurally valid DER whose inner fields are degenerate
+                             "empty_bitstring", "only_unused_octet", "nonzero_unused", "empty_oid", "empty_algid", "long_form_length",
+                             "empty_octets", "nested_empty"}
 
 DefaultOf(f) == CHOOSE c \in ClassesOf(f) :
   c \in {"ok", "one", "link", "plain", "list", "normal", "null", "none", "owner", "present", "spki_ed25519"}
